@@ -377,7 +377,9 @@ impl Bitstr {
     }
 
     pub fn detach(self) -> Bitstr {
-        if Rc::strong_count(&self.data) == 1 {
+        // reuse the buffer only when the result is laid out like a copy would be (the value
+        // starts at bit 0), so that nothing observable depends on who else holds the buffer
+        if Rc::strong_count(&self.data) == 1 && self.range.start == 0 {
             self
         } else if self.len() == 0 {
             Bitstr::new()
